@@ -169,7 +169,7 @@ def main():
         ],
         'checks': checks,
         'not_applicable': na,
-        'notes': 'exit 0 = all obligations discharged; exit 1 + VIOLATION = a named obligation that verifies on the unchanged tree fails; exit 2 = undecided (lost anchor, unsupported construct, rlimit), never an alarm.',
+        'notes': 'exit 0 = all obligations discharged; exit 1 + VIOLATION = a named obligation that verifies on the unchanged tree fails (for a property that only depends on the failing function, or shares its contract with a sibling property, additionally a concrete failing input of this property); exit 2 = undecided (lost anchor, unsupported construct, resource limit, or a failing dependency / shared contract without a failing input of this property), never an alarm.',
     }
     with open(os.path.join(VERIF, 'MANIFEST.json'), 'w') as f:
         json.dump(m, f, indent=1)
